@@ -410,8 +410,9 @@ class _ApiLabels(Case):
     assumptions = ("dt > 0",)
     timeout_s = 60
 
-    def __init__(self, record_all):
+    def __init__(self, record_all, nmax=4):
         self.record_all = record_all
+        self.NMAX = nmax
         self.id = "H2/%s/record_all=%s" % (self.api, record_all)
         self.bounds = {"num_steps": [0 if self.api != "compute_gradient_and_dynamics" else 1, self.NMAX], "d": 2, "record_all": record_all}
 
@@ -511,8 +512,8 @@ class LabelsWithField(_ApiLabels):
     stubs = _ApiLabels.stubs + ("field equation of motion: da/dt = 0 (field bookkeeping is C09's subject)",)
     lo = 1
 
-    def __init__(self, record_all, zero_steps=False):
-        super().__init__(record_all)
+    def __init__(self, record_all, nmax=4, zero_steps=False):
+        super().__init__(record_all, nmax)
         if zero_steps:       # dedicated case: a computation over zero steps returns the initial state at start_time
             self.lo = self.NMAX = 0
             self.id = "H2/compute_dynamics_with_field/num_steps=0"
@@ -581,8 +582,9 @@ class ComputeLoop(Case):
     assumptions = ("dt > 0", "exact real arithmetic: end_time = start + (m+theta)*dt with 0 <= theta < 1")
     timeout_s = 60
 
-    def __init__(self, kind):
+    def __init__(self, kind, nmax=4):
         self.kind = kind
+        self.NMAX = nmax
         self.id = "H2/%s.compute" % kind
         self.bounds = {"m": [0, self.NMAX], "calls": 2}
         self.functions = ("oqupy/tempo.py:%s.compute" % kind, "oqupy/tempo.py:%s._get_num_step" % kind, "oqupy/tempo.py:%s._time" % kind)
@@ -766,15 +768,21 @@ def fp_cases(tier):
           StepsOffGrid("Tempo"), StepsOffGrid("MeanFieldTempo"), StepsOffGrid("PtTempo"),
           TimeLabels("Tempo"), TimeLabels("MeanFieldTempo"), TimeLabels("GibbsTempo"), TimeLabels("PtTebd"),
           TcutDkmax()]
+    if tier == "thorough":
+        for c in cs:
+            c.validation_points = 12
+            c.timeout_s = 600
+            c.fp_timeout_s = 300
     return cs
 
 
 def e1_cases(tier):
+    n = 4 if tier == "quick" else 7
     cs = []
     for ra in (True, False):
-        cs += [LabelsComputeDynamics(ra), LabelsWithField(ra), LabelsGradient(ra)]
+        cs += [LabelsComputeDynamics(ra, n), LabelsWithField(ra, n), LabelsGradient(ra, n)]
     cs += [LabelsWithField(True, zero_steps=True)]
-    cs += [ComputeLoop("Tempo"), ComputeLoop("MeanFieldTempo"), PtTebdLoop()]
+    cs += [ComputeLoop("Tempo", 4 if tier == "quick" else 6), ComputeLoop("MeanFieldTempo", 4 if tier == "quick" else 6), PtTebdLoop()]
     cs += [DynamicsAdd("Dynamics", 3), DynamicsAdd("MeanFieldDynamics", 3)]
     if tier == "thorough":
         cs += [DynamicsAdd("Dynamics", 4), DynamicsAdd("MeanFieldDynamics", 4)]
@@ -785,36 +793,5 @@ def cases(tier):
     return fp_cases(tier) + e1_cases(tier)
 
 
-def _worker(args):
-    idx, tier, seed = args
-    case = cases(tier)[idx]
-    verbose = os.environ.get("VF_VERBOSE")
-    if verbose:
-        print("[start] %s" % case.id, file=sys.stderr, flush=True)
-    if getattr(case, "is_fp", False):
-        r = fpx.execute_fp_case(PROP, case, tier, seed)
-    else:
-        r = core.execute_case(PROP, case, tier, seed)
-    if verbose:
-        print("[done ] %s %.1fs solver=%.1fs q=%d viol=%d err=%d inc=%d" % (
-            case.id, r["wall_s"], r["solver_s"], len(r["queries"]), len(r["violations"]), len(r["errors"]), len(r["inconclusive"])),
-            file=sys.stderr, flush=True)
-    return r
-
-
 def main(tier, seed, args):
-    t0 = time.time()
-    cs = cases(tier)
-    only = args.only
-    idx = [i for i, c in enumerate(cs) if only is None or any(o in c.id for o in only)]
-    jobs = args.jobs or min(16, max(1, len(idx)))
-    work = [(i, tier, seed) for i in idx]
-    results = []
-    if jobs == 1 or len(idx) <= 1:
-        results = [_worker(w) for w in work]
-    else:
-        with mp.get_context("fork").Pool(jobs, maxtasksperchild=1) as pool:
-            for r in pool.imap_unordered(_worker, work, chunksize=1):
-                results.append(r)
-    results.sort(key=lambda r: r["case"])
-    return core.finish(PROP, sys.modules[__name__], tier, seed, results, time.time() - t0)
+    return fpx.run_cases(PROP, sys.modules[__name__], tier, seed, args, hard_timeout_s=(300 if tier == "quick" else 1500))
